@@ -65,10 +65,10 @@ U = K + "/app/cli/util"
 
 def c06_jobs(tier):
     js = []
-    for n in range(0, (5 if tier == "quick" else 7) + 1):
+    for n in range(0, (5 if tier == "quick" else 6) + 1):
         js.append(job("ZZ_C06_TotalShort", U, n=n))
     for p in range(5):
-        js.append(job("ZZ_C06_TotalTail", U, n=(3 if tier == "quick" else 5), prefix=p))
+        js.append(job("ZZ_C06_TotalTail", U, n=(3 if tier == "quick" else 4), prefix=p))
     dn = 12 if tier == "quick" else 19
     for shape in [0, 1, 2, 3, 5]:
         js.append(job("ZZ_C06_Digits", U, n=dn, shape=shape))
@@ -366,8 +366,8 @@ def c12_jobs(tier):
 
 def c13_jobs(tier):
     q = tier == "quick"
-    js = [job("ZZ_C13_Sort", S, n=n) for n in ([1, 2, 3] if q else [1, 2, 3, 4])]
-    js += [job("ZZ_C13_Filter", S, n=n, e=1, mode=0) for n in ([1, 2] if q else [1, 2, 3])]
+    js = [job("ZZ_C13_Sort", S, n=n) for n in [1, 2, 3]]
+    js += [job("ZZ_C13_Filter", S, n=n, e=1, mode=0) for n in [1, 2]]
     js += [job("ZZ_C13_Filter", S, n=1, e=2, mode=1), job("ZZ_C13_Filter", S, n=2, e=1, mode=1)]
     for sel in range(13):
         for frm, span in ([(2019, 4)] if q else [(0, 6), (1998, 6), (9993, 6)]):
@@ -437,7 +437,7 @@ CHECKS = {
         "jobs": c06_jobs,
         "bounds": {
             "quick": "every byte string of length 0..5 as a whole file; 5 valid prefixes + every 3-byte tail; digit-run templates with 12 symbolic digits (duration, negative duration, should-total, hours+minutes, two entries) and 19 symbolic digits (hours, should-total); arbitrary int64 entry values in evaluation; the commands total, today, report (5 aggregations, --fill), tags, print (--with-totals, --sort), json with their warnings and --now on 1-2 records dated 0000-01-01, 0000-01-02, 9999-12-30, 9999-12-31, 2020-02-29, 2019-12-31 x 9 entry shapes (day-shifted ranges and open ranges, 24:00, 12:00am>) at three wall clocks",
-            "thorough": "every byte string up to 7 bytes; tails up to 5 bytes; digit runs of 19 and 20 symbolic digits",
+            "thorough": "every byte string up to 6 bytes; tails up to 4 bytes; digit runs of 19 and 20 symbolic digits (7-byte strings and 5-byte tails did not finish within 40 minutes and are not registered)",
         },
         "outside": "longer arbitrary inputs than the bound (except through the templates); memory exhaustion; very long lines; encoding/json itself (model); decimal rendering of the huge numbers in the digit templates; wall clocks in year 0000 / 9999; --fill across thousands of years (slow, not a hang)",
         "stubs": [MODELS["regexp"], MODELS["fmt"], MODELS["utf8"], MODELS["bytealg"], MODELS["builder"], MODELS["json"], MODELS["sort"]],
@@ -541,7 +541,7 @@ CHECKS = {
     "C13": {
         "jobs": c13_jobs,
         "bounds": {"quick": "shortcut filters this/last week, month, quarter, year, --today/--yesterday/--tomorrow and --after/--before for every reference date 2019-2022 against records on the first/last day of the reference period and their neighbours; sort of 1-3 records with symbolic dates (2019-2021, any month, day 1-28) written with either date separator (mixed notations), asc and desc; date clauses (--date, --since, --since+--until) on 1-2 records with symbolic dates; tag clauses (#x, #y, #x=v at record and entry level) x 5 entry types x all entry kinds on 1 record x 2 entries and 2 records x 1 entry",
-                   "thorough": "shortcuts for the reference years 0000-0005, 1998-2003, 9993-9998; sort up to 4 records; 3 records for date clauses; all clause kinds combined on one record; 3 entries"},
+                   "thorough": "shortcuts for the reference years 0000-0005, 1998-2003, 9993-9998; all clause kinds combined on one record; 3 entries; 2 records x 2 entries (sorting 4 records with mixed notations and date clauses on 3 records exceed the time budget and are not registered)"},
         "outside": "--period with a literal pattern through ApplyFilter (pattern -> period is C15; period -> since/until is the date-clause path covered here); sort of more than 12 records (pdqsort leaves its insertion-sort regime)",
         "stubs": [MODELS["sort"], MODELS["regexp"]],
         "assumptions": COMMON_ASSUME + ["dates are raw field triples (Filter and Sort only compare year/month/day)"],
